@@ -33,6 +33,8 @@ define(`MOVQ',`movd')
 
 ASM_START()
 PROLOGUE(mpn_rsh_divrem_hensel_qr_1_1)
+C the count is an int argument: the upper half of its register is undefined
+	mov	%r8d, %r8d
 mov %r9,%r10
 mov $1,%r9
 sub %rdx,%r9
